@@ -9,10 +9,10 @@ emitted module.
 namespace GqlVerif
 
 inductive Mode where | cli | derive
-  deriving Repr, BEq, DecidableEq, Inhabited
+  deriving Repr, DecidableEq, Inhabited
 
 inductive DepStrategy where | allow | deny | warn
-  deriving Repr, BEq, DecidableEq, Inhabited
+  deriving Repr, DecidableEq, Inhabited
 
 structure Options where
   mode : Mode := .cli
